@@ -155,9 +155,17 @@ def extract_entry_points(utils_src, urwid_src):
     for name in ENTRY_POINTS["urwid"]:
         fn = next((n for n in screen.body if isinstance(n, ast.FunctionDef) and n.name == name), None)
         out[name] = bool(fn is not None and decorated(fn))
+    io_calls = {"query_terminal", "read_tty", "write_tty", "read_tty_all"}
     for name in INLINE_LOCKED:
         fns = [n for n in ast.walk(ut) if isinstance(n, ast.FunctionDef) and n.name == name]  # (typing overloads share the name)
         inline[name] = max([len(_with_items_named(w, "_tty_lock")) for fn in fns for w in ast.walk(fn) if isinstance(w, ast.With)] or [0])
+        # every terminal I/O call of such a function must sit inside its `with <lock>` block: a query and the read that
+        # drains the rest of its reply are one critical section
+        for fn in fns:
+            inside = {id(c) for w in ast.walk(fn) if isinstance(w, ast.With) and _with_items_named(w, "_tty_lock") for c in ast.walk(w) if isinstance(c, ast.Call)}
+            for c in ast.walk(fn):
+                if isinstance(c, ast.Call) and getattr(c.func, "id", "") in io_calls and id(c) not in inside:
+                    inline[name] = 0
     return out, inline
 
 
@@ -585,7 +593,7 @@ class C14(Check):
             eng.reachable()
             eng.claim("skeleton: the wrapper acquires the global lock around the call", sk["wrapper_acquisitions"] >= 1)
             eng.claim("skeleton: the wrappers are installed on multiprocessing.Process", sk["installed"])
-            eng.claim("skeleton: functions querying the terminal several times hold the lock around all of it", all(n >= 1 for n in sk["inline"].values()))
+            eng.claim("skeleton: functions querying the terminal several times hold the lock around all of their terminal I/O (query and the read draining the rest of the reply)", all(n >= 1 for n in sk["inline"].values()))
             eng.observe("skeleton", sorted([k, int(v)] for k, v in sk.items() if not isinstance(v, (dict, tuple))))
             return
         if shape["part"] == "discovery":
